@@ -31,6 +31,7 @@ ASSUMPTIONS = [
 SHARDS = {"quick": 6, "thorough": 16}
 MIN_REACH = {
     "locations_judged": {"quick": 6000, "thorough": 90000},
+    "datasets_with_a_variable_over_an_empty_internal_axis_next_to_one_with_data": {"quick": 8, "thorough": 120},
     "datasets_with_mixed_locations": {"quick": 100, "thorough": 1500},
     "find_harvest_find_loops": {"quick": 40, "thorough": 400},
     "absent_coordinate_requests": {"quick": 100, "thorough": 1500},
@@ -60,7 +61,10 @@ def cases(ctx):
                "vars": vs, "pattern": rng.choice(["cells"] * 4 + ["mixed"] * 3 + ["pervar"] * 2 + ["partial", "none", "all"] + ["infcells"] * 3),
                "p": rng.choice([0.2, 0.5, 0.8]), "inf": rng.random() < 0.3, "method": rng.choice(["isnull", "isnull", "isfinite"]),
                "ignore_as": rng.choice(["list", "set", "str", "tuple"]), "ignore_param": rng.random() < 0.25,
-               "dseed": rng.randint(0, 10 ** 9), "da": rng.random() < 0.15}
+               "dseed": rng.randint(0, 10 ** 9), "da": rng.random() < 0.15,
+               # the internal axis is of length ONE, or EMPTY (no time steps recorded yet): a variable over an empty axis
+               # holds no data anywhere, the other variables still decide
+               **({"tau_n": [1, 0][i % 2]} if i % 5 == 2 and any(v["internal"] for v in vs) else {})}
     # LARGE datasets (a couple of hundred locations, each a long internal axis: 10**5 and more numbers), with holes far
     # from the start of the leading dimension: whatever screening is done block-wise must label every block's locations
     for i in range(ctx.pick(4, 16)):
@@ -149,7 +153,7 @@ def build(case):
             x[(rng.random(shape) < 0.15) & ~m] = np.inf
         if v["dtype"] == "obj" and case["method"] == "isnull":
             xo = np.empty(shape, dtype=object)
-            it = np.nditer(x, flags=["multi_index"])
+            it = np.nditer(x, flags=["multi_index", "zerosize_ok"])
             for val in it:
                 xo[it.multi_index] = None if np.isnan(val) else "s%d" % int(abs(float(val)) * 100 % 97) if np.isfinite(val) else "inf"
             x = xo
@@ -354,14 +358,17 @@ def run_case(ctx, case):
                     arr[~np.isfinite(arr)] = 0.25
                 fa2, miss2 = xyzpy.find_missing_cases(ds2, ignore_dims=spelled, method=method)
             ctx.count("searches_repeated_on_the_same_dataset_after_filling_its_holes_in_place")
-            if len(miss2):
+            # (variables over an EMPTY internal axis hold nothing to fill: if every variable is one, all stays missing)
+            if len(miss2) and any(ds2[v].size for v in ds2.data_vars):
                 bad.append("second search on the same Dataset object, after every hole had been filled in place, still reports %d locations missing: %s" % (
                     len(miss2), list(miss2)[:3]))
         except Exception as e:
             bad.append("the repeated search raised %r" % (e,))
     for msg in bad[:2]:
         ctx.violation(case, msg, dict(sig, oracle=msg.split("(")[0].split(" ")[0]))
-    ctx.observe(case, key=(case["dims"], case["sizes"], [(v["dims"], v["internal"], v["dtype"]) for v in case["vars"]],
+    if case.get("tau_n") == 0 and any(not v["internal"] for v in case["vars"]):
+        ctx.count("datasets_with_a_variable_over_an_empty_internal_axis_next_to_one_with_data")
+    ctx.observe(case, key=(case["dims"], case["sizes"], [(v["dims"], v["internal"], v["dtype"]) for v in case["vars"]], case.get("tau_n"),
                            case["pattern"], case["p"], case["inf"], method, case["ignore_param"], case["da"], case["dseed"]),
                 nontrivial=0 < nmiss < nloc,
                 info={"locations": nloc, "missing": nmiss, "searched": list(fn_args) if fn_args else None})
